@@ -47,6 +47,9 @@ fn zip_function_args<E: Evaluator>(
 ) -> Result<(), Error> {
     let mut args_iter = args.base_iter();
     let mut eval_result = None;
+    // Evaluate every argument in the caller's scope before binding any
+    // parameter.
+    let mut values = Vec::new();
     for param in params.iter() {
         let val = if param.is_optional {
             match args_iter.next() {
@@ -72,13 +75,21 @@ fn zip_function_args<E: Evaluator>(
                 "Too few arguments".to_string(),
             ));
         };
-        param.param.set_scope(val)?;
+        values.push(val);
     }
     if args_iter.next().is_some() {
         return Err(Error::new(
             ErrorKind::TypeMismatch,
             "Too many arguments".to_string(),
         ));
+    }
+    for (idx, (param, val)) in params.iter().zip(values).enumerate() {
+        if let Err(e) = param.param.set_scope(val) {
+            for bound in params.iter().take(idx) {
+                bound.param.unset()?;
+            }
+            return Err(e);
+        }
     }
     Ok(())
 }
